@@ -76,7 +76,7 @@ CLAIMS.update({
      'Function. Transforms run under a wall-clock guard; non-termination is reported.'),
      note='Same bounds as C04. Configurations whose output is textually identical to the input or to another configuration are not re-run.'),
  'C08': dict(engine='Equiv', technique=TECH_M, text=(
-     'As C07 with unroll_for (1-3, PEEL and STRICT), unroll_while, split (2-3, PEEL/STRICT), elim_iter, fuse and compositions on '
+     'As C07 with unroll_for (1-3, PEEL and STRICT), unroll_while, split (2-3 and a variable factor, PEEL/STRICT), elim_iter (both switches), fuse and compositions, the loop named by index, by cursor or not at all, on '
      'loop-heavy programs (bodies that reassign outer variables, mutate the iterated list, return early, nest loops), every list '
      'length 0..7 and low-precision caller contexts.'),
      note='STRICT is judged only where its divisibility precondition holds (an AssertionError of the guard is a skipped input). '
